@@ -152,6 +152,8 @@ def ref_coq(r, case, lin, step_i):
         t = positions(case).get(cc.key(r[1]))
         if t is None:
             raise ValueError("reference through a DataFrame that is not a table of the chain")
+        if lin.get("spec_only"):
+            return f"(RDf {natlit(t)} 0%nat false {strlit(r[2])})"
         obj = lin["objs"].df(r[1])
         uo = False
         if step_i is not None and step_i < len(lin.get("known", [])):
@@ -203,8 +205,13 @@ def frame_of(d, data):
     return rel.frame_coq(cols, rows)
 
 
-def case_coq(case, lin, impl, rec=None):
-    """impl: (cols, rows) | None.  rec: optional second observed answer (PySpark's)."""
+def dummy_lineage(case):
+    """for terms that are only given to the Spark spec (which ignores the implementation's lineage ids)"""
+    return {"tables": [], "same_branch": [], "alias_seq": {}, "spec_only": True}
+
+
+def case_coq(case, lin, impl, exported="None", spec_only=False):
+    """impl: (cols, rows) | None; exported: Coq term of type option exported"""
     tabs = lin["tables"] or [[] for _ in range(len(case["steps"]) + 1)]
     while len(tabs) < len(case["steps"]) + 1:
         tabs.append([])
@@ -221,7 +228,7 @@ def case_coq(case, lin, impl, rec=None):
     else:
         fin_t = "(FSelect " + listlit([f"({ue_coq(e, case, lin, None)}, {strlit(o)})" for e, o in fin[1]]) + ")"
     return (f"(mkJCase {frame_of(case['left'], case['data'])} {ctes_coq(tabs[0], 0)} {listlit(steps)} {fin_t} "
-            f"{obs_coq(impl)})")
+            f"{obs_coq(impl)} {exported})")
 
 
 def obs_coq(obs):
